@@ -25,3 +25,60 @@ fn k_crc16_update_eq_spec() {
     vk_assert!(Crc16(s).valid() == (s == 0), "Crc16::valid iff state is zero");
     vk_assert!(Crc16::default().0 == 0, "Crc16 starts at zero");
 }
+
+// contract: CrcReader::read / CrcWriter::write fold `update` over exactly the bytes the inner stream returned / accepted
+pub(crate) struct Chunk {
+    pub data: [u8; 3],
+    pub give: usize,
+    pub fail: bool,
+}
+impl std::io::Read for Chunk {
+    fn read(&mut self, buf: &mut [u8]) -> std::io::Result<usize> {
+        if self.fail { return Err(std::io::Error::from(std::io::ErrorKind::Other)); }
+        let k = self.give.min(buf.len()).min(3);
+        buf[..k].copy_from_slice(&self.data[..k]);
+        Ok(k)
+    }
+}
+impl std::io::Write for Chunk {
+    fn write(&mut self, buf: &[u8]) -> std::io::Result<usize> {
+        if self.fail { return Err(std::io::Error::from(std::io::ErrorKind::Other)); }
+        Ok(self.give.min(buf.len()))
+    }
+    fn flush(&mut self) -> std::io::Result<()> { Ok(()) }
+}
+
+#[kani::proof]
+#[kani::unwind(5)]
+pub(crate) fn k_crc_reader_writer_fold() {
+    use std::io::{Read, Write};
+    let data: [u8; 3] = kani::any();
+    let give: usize = kani::any();
+    kani::assume(give <= 4);
+    let fail: bool = kani::any();
+    let mut r: CrcReader<Chunk, Crc16> = CrcReader::new(Chunk { data, give, fail });
+    let mut buf = [0u8; 3];
+    let res = r.read(&mut buf);
+    let sum: u16 = r.into_checksum().into();
+    match res {
+        Ok(k) => {
+            let mut want = 0u16;
+            let mut i = 0;
+            while i < 3 { if i < k { want = spec::crc16_step(want, data[i]); } i += 1; }
+            vk_assert!(sum == want, "CrcReader checksums exactly the bytes the inner reader returned");
+        }
+        Err(_) => vk_assert!(fail && sum == 0, "a failed read leaves the checksum untouched"),
+    }
+    let mut w: CrcWriter<Chunk, Crc8> = CrcWriter::new(Chunk { data: [0; 3], give, fail });
+    let res = w.write(&data);
+    let sum: u8 = w.into_checksum().into();
+    match res {
+        Ok(k) => {
+            let mut want = 0u8;
+            let mut i = 0;
+            while i < 3 { if i < k { want = spec::crc8_step(want, data[i]); } i += 1; }
+            vk_assert!(sum == want, "CrcWriter checksums exactly the bytes the inner writer accepted");
+        }
+        Err(_) => vk_assert!(fail && sum == 0, "a failed write leaves the checksum untouched"),
+    }
+}
